@@ -88,6 +88,15 @@ pub fn dispatch(op: &str, a: &[Val]) -> Option<Val> {
         "t.phms_nano" => (|| Some(enc_time(NaiveTime::from_hms_nano(a.get(0)?.u32()?, a.get(1)?.u32()?, a.get(2)?.u32()?, a.get(3)?.u32()?))))(),
         #[allow(deprecated)]
         "t.pnsfm" => (|| Some(enc_time(NaiveTime::from_num_seconds_from_midnight(a.get(0)?.u32()?, a.get(1)?.u32()?))))(),
+        // the deprecated panicking NaiveDate::and_hms*
+        #[allow(deprecated)]
+        "ndt.phms" => (|| Some(enc_ndt(dec_date(a.get(0)?)?.and_hms(a.get(1)?.u32()?, a.get(2)?.u32()?, a.get(3)?.u32()?))))(),
+        #[allow(deprecated)]
+        "ndt.phms_milli" => (|| Some(enc_ndt(dec_date(a.get(0)?)?.and_hms_milli(a.get(1)?.u32()?, a.get(2)?.u32()?, a.get(3)?.u32()?, a.get(4)?.u32()?))))(),
+        #[allow(deprecated)]
+        "ndt.phms_micro" => (|| Some(enc_ndt(dec_date(a.get(0)?)?.and_hms_micro(a.get(1)?.u32()?, a.get(2)?.u32()?, a.get(3)?.u32()?, a.get(4)?.u32()?))))(),
+        #[allow(deprecated)]
+        "ndt.phms_nano" => (|| Some(enc_ndt(dec_date(a.get(0)?)?.and_hms_nano(a.get(1)?.u32()?, a.get(2)?.u32()?, a.get(3)?.u32()?, a.get(4)?.u32()?))))(),
         _ => return None,
     };
     Some(r.unwrap_or_else(bad))
